@@ -166,14 +166,15 @@ def z3_query(vars_ranges, constraints, goal_terms, timeout=60):
 class GroupDomain(RingDomain):
     """see module docstring"""
 
-    def __init__(self, consts=None, extra_leaf=(), obj_contracts=None, named_globals=None):
-        RingDomain.__init__(self, set(GROUP_TYPES) | {"BigInt<256>", "BigInt<128>", "BigInt<512>", "BigInt<64>", "BigInt<384>", "PowersOfX"} | set(extra_leaf),
+    def __init__(self, consts=None, extra_leaf=(), obj_contracts=None, named_globals=None, drop_leaf=()):
+        RingDomain.__init__(self, (set(GROUP_TYPES) | {"BigInt<256>", "BigInt<128>", "BigInt<512>", "BigInt<64>", "BigInt<384>", "PowersOfX"} | set(extra_leaf)) - set(drop_leaf),
                             consts=consts, obj_contracts=obj_contracts)
         self.constraints = []        # [(Poly, rel)]
         self.ranges = {}             # scalar symbol -> (lo, hi) : lo <= v < hi
         self.nfresh = 0
         self.named_globals = named_globals or {}
         self.events = []             # abstract calls, in order (ghost trace for schedule / binding obligations)
+        self.side = []               # side obligations (oid, status, msg): ranges / no truncation
 
     # ---- leaves ----
     def is_group(self, t):
@@ -250,6 +251,9 @@ class GroupDomain(RingDomain):
 
     def contract_for(self, I, f, this, args):
         if f.qname in self.obj_contracts:
+            h = self.obj_contracts[f.qname]
+            if getattr(h, "raw", False):
+                return h
             return RingDomain.contract_for(self, I, f, this, args)
         if isinstance(this, Leaf):
             return self.method
@@ -294,6 +298,13 @@ class GroupDomain(RingDomain):
             this.val = G(0).scale(2)
         elif n in ("inverse", "conjugate") and t == GT_T:
             this.val = -G(0)
+        elif n == "endomorphism":
+            # G1::endomorphism acts as multiplication by lambda on the order-r subgroup (beta^3 = 1, CM theory: trusted; constants: CONST)
+            this.val = G(0).scale(self.consts.value("g1_endomorphism_lambda"))
+        elif n == "frobenius_map" and t in (G2_T, G2A_T):
+            # the twisted Frobenius acts on G2 as multiplication by q = x (mod r)  (trusted; q = x mod r by construction of q)
+            from bvspec import X as BLS_X
+            this.val = G(0).scale(BLS_X ** I.rv(args[1]))
         elif n.startswith("multiply") or n.startswith("exponentiate"):
             this.val = G(0).scale(self.sval(args[1], "%s scalar" % f.qname))
         elif n == "random_generator":
@@ -343,6 +354,31 @@ class GroupDomain(RingDomain):
                 this.val = _norm(s - top)
                 return 1
             this.val = _norm(s)
+            return 0
+        if n == "multiply":
+            a, b = self.sval(args[0]), self.sval(args[1])
+            pr = P(a) * P(b)
+            self.range_obligation(I, pr, top, "%s: product fits %d bits" % (f.qname, bits))
+            this.val = _norm(pr)
+            return None
+        if n == "divide_std_dword":
+            d = int(f.targs[0])
+            a = self.sval(args[0])
+            qv = self.fresh_scalar("quot", 0, top)
+            rv_ = self.fresh_scalar("rem", 0, d)
+            # contract of the division loop (BV unit): a == q*d + rem, 0 <= rem < d
+            self.constraints.append((P(a) - qv * d - rv_, "==0"))
+            this.val = qv
+            return rv_
+        if n.startswith("shift_left_in_word"):
+            amt = int(f.targs[0])
+            a = P(self.sval(args[0])) * (1 << amt)
+            if amt != 1:
+                raise SymxError("shift_left_in_word<%d>" % amt)
+            if self.decide_rel(I, a - top, "carry", ">=0", "<0"):
+                this.val = _norm(a - top)
+                return 1
+            this.val = _norm(a)
             return 0
         v = self.sval(this)
         if n == "is_zero":
@@ -394,6 +430,66 @@ class GroupDomain(RingDomain):
 
     def reinterpret(self, I, v, ts):
         return v
+
+    def range_obligation(self, I, p, top, what):
+        """0 <= p < top must hold under the path constraints (else the real code truncates)"""
+        p = P(p)
+        if p.is_const():
+            ok = 0 <= p.const_value() < top
+            self.side.append((what, "ok" if ok else "fail", repr(p)))
+            return
+        if p.degree() > 1:
+            self.side.append((what, "undecided", "non-linear range condition %r" % p))
+            return
+        rng = {v: self.ranges.get(v, (0, TWO256)) for v in p.vars()}
+        for (c, _) in self.constraints:
+            for v in P(c).vars():
+                rng.setdefault(v, self.ranges.get(v, (0, TWO256)))
+        st, model = z3_query(rng, self.constraints, ["(or (< %s 0) (>= %s %d))" % (_smt_term(p), _smt_term(p), top)])
+        self.side.append((what, "ok" if st == "unsat" else ("fail" if st == "sat" else "undecided"), "" if st == "unsat" else repr(model)))
+
+    def leaf_member(self, I, leaf, name):
+        if self.is_big(leaf.type) and name in ("std_dwords", "std_words", "words"):
+            return WordView(self, I, leaf, {"std_dwords": 64, "std_words": 32, "words": 64}[name])
+        return RingDomain.leaf_member(self, I, leaf, name)
+
+
+class WordView:
+    """word view of a BigInt leaf: only whole-value accesses through word 0 are modelled (value must fit the word)"""
+
+    def __init__(self, dom, I, leaf, wbits):
+        self.dom, self.I, self.leaf, self.wbits = dom, I, leaf, wbits
+
+    def subscript(self, I, i):
+        return WordCell(self, i)
+
+
+class WordCell(Cell):
+    __slots__ = ("view", "idx")
+
+    def __init__(self, view, idx=0):
+        self.view, self.idx = view, idx
+
+    @property
+    def v(self):
+        vw = self.view
+        val = vw.dom.sval(vw.leaf)
+        if isinstance(val, Poly) and val.is_const():
+            val = val.const_value()
+        if isinstance(val, int):
+            return (val >> (vw.wbits * self.idx)) & ((1 << vw.wbits) - 1)
+        if self.idx != 0:
+            raise SymxError("word %d of a symbolic BigInt" % self.idx)
+        vw.dom.range_obligation(vw.I, val, 1 << vw.wbits, "low word read of %s: value fits %d bits (no truncation)" % (vw.leaf.type, vw.wbits))
+        return val
+
+    @v.setter
+    def v(self, x):
+        vw = self.view
+        if self.idx != 0:
+            raise SymxError("write to word %d of a BigInt leaf" % self.idx)
+        vw.dom.range_obligation(vw.I, x, 1 << vw.wbits, "low word write of %s: value fits %d bits" % (vw.leaf.type, vw.wbits))
+        vw.leaf.val = x
 
 
 FREE_NAMES = {"pairing", "pairing_product", "equal", "compare"}
